@@ -717,12 +717,16 @@ static void plan_c20(void)
                  * notice (e.g. only part of the stored value compared) would let a damaged data fragment through the fast path */
                 if (S == full) for (int i = 0; i < n; i++) {
                     uint32_t bs2 = (uint32_t)(s.flen - WIRE_HDR);
+                    /* the fragment that gets damaged is one the library REBUILT (what a repaired stripe holds), not the one encode wrote */
+                    uint8_t *rebuilt = malloc(s.flen); int have_rebuilt = 0;
+                    { char **ra = (char **)(s.gptr.p + s.gptr.len) - n; int rn = 0; for (int j = 0; j < n; j++) if (j != i) ra[rn++] = (char *)frag_at(&s, GP_END, j);
+                      vh_op("liberasurecode_reconstruct_fragment"); have_rebuilt = liberasurecode_reconstruct_fragment(s.desc, ra, rn, s.flen, i, (char *)rebuilt) == 0; }
                     for (uint32_t bit = 0; bit < bs2 * 8; bit++) {
                         if (bs2 > 128 && (bit >> 3) >= 64 && (bit >> 3) < bs2 - 64) continue;
                         if (!vh_case_begin("B%x/payload-bit%u/force1", 1u << i, bit)) continue;
                         vh_nontrivial();
                         char **arr = (char **)(s.gptr.p + s.gptr.len) - n; int nf = 0;
-                        memcpy(w, enc_frag(&s, i), s.flen); w[WIRE_HDR + (bit >> 3)] ^= (uint8_t)(1u << (bit & 7));
+                        memcpy(w, have_rebuilt && (bit & 1) ? (char *)rebuilt : enc_frag(&s, i), s.flen); w[WIRE_HDR + (bit >> 3)] ^= (uint8_t)(1u << (bit & 7));
                         for (int j = 0; j < n; j++) arr[nf++] = j == i ? (char *)slot_put(0, w, s.flen) : (char *)frag_at(&s, GP_END, j);
                         { char opn[96]; snprintf(opn, sizeof opn, "liberasurecode_decode:%s:force1", be_name(sh.be)); vh_op(opn); }
                         char *out = NULL; uint64_t outlen = 0; vh_transitions(1);
@@ -733,6 +737,7 @@ static void plan_c20(void)
                         else if (rc != 0) vh_violation("refused-although-valid-fragments-suffice", "fragment %d payload bit %u flipped: the other %d fragments are valid but forced decode returned %d", i, bit, n - 1, rc);
                         if (out && ledger_has(out)) liberasurecode_decode_cleanup(s.desc, out);
                     }
+                    free(rebuilt);
                 }
                 free(w);
             }
